@@ -37,6 +37,7 @@ type c10Spec struct {
 	Sessions int               `json:"sessions"`
 	Clients  []c10Client       `json:"clients"`
 	SegMax   int               `json:"seg_max"`
+	Flood    bool              `json:"flood,omitempty"` // the server's sockets have a 16 KiB send buffer in this run
 }
 
 type c10Harness struct{}
@@ -85,6 +86,12 @@ func (c10Harness) Gen(r *verifsim.SplitMix, tier string, idx int) any {
 			}
 			sp.Clients = append(sp.Clients, c)
 		}
+	}
+	if r.Chance(1, 8) && len(sp.Clients) >= 2 {
+		// one client floods another of its session (the target only reads)
+		ci := r.Intn(len(sp.Clients))
+		sp.Clients[ci].Acts = append([]c10Act{{K: "sleep"}, {K: "flood", To: r.Intn(4), N: 380 + r.Intn(200)}}, sp.Clients[ci].Acts...)
+		sp.Flood = true
 	}
 	return sp
 }
@@ -159,6 +166,7 @@ type c10State struct {
 	dialStatus int
 	log        *wsLog
 	sessID     string
+	tcp        *verifsim.TCPConn // the client's end of its connection
 }
 
 func (c10Harness) Run(spec any) (res verifsim.RunResult) {
@@ -184,6 +192,9 @@ func (c10Harness) Run(spec any) (res verifsim.RunResult) {
 	var outcome verifsim.Outcome
 	var done atomic.Int32
 	s, bubblePanic := runWorld(sp.Seed, sp.Strat, sp.SegMax, flags, false, func(w *world) {
+		if sp.Flood {
+			w.tnet.SendBuf = 16 << 10
+		}
 		codes := make([]sessionInfo, sp.Sessions)
 		ready := make(chan struct{})
 		verifsim.Go("SETUP", func() {
@@ -221,6 +232,11 @@ func (c10Harness) Run(spec any) (res verifsim.RunResult) {
 					return
 				}
 				st.connected = true
+				if tc, ok := conn.UnderlyingConn().(*verifsim.TCPConn); ok {
+					mu.Lock()
+					st.tcp = tc
+					mu.Unlock()
+				}
 				st.log = w.startReader(fmt.Sprintf("P%d>read", ci), conn)
 				for i := 0; i < 1000; i++ {
 					envs, closed := st.log.snapshot()
@@ -260,7 +276,11 @@ func (c10Harness) Run(spec any) (res verifsim.RunResult) {
 					members := bySess[cl.Sess]
 					return sp.Clients[members[k%len(members)]].ID
 				}
+				pausedSelf := false
 				for _, a := range cl.Acts {
+					// every act is a step of the schedule: clients woken by the same clock tick
+					// must not race each other outside the scheduler's view
+					verifsim.Y("c10.act", "act:"+a.K)
 					switch a.K {
 					case "send":
 						for k := 0; k < a.N; k++ {
@@ -279,12 +299,38 @@ func (c10Harness) Run(spec any) (res verifsim.RunResult) {
 						write([]byte(`{"v":1,"type":"x-test","msg_id":`))
 					case "noid":
 						write([]byte(`{"v":1,"type":"x-test"}`))
+					case "flood":
+						// a burst to one peer whose path from the server is stalled meanwhile: the
+						// server's writer blocks on the full socket, the peer's queue in the hub
+						// fills and overflows. What overflows may be lost; what arrives must be in
+						// the author's order, once.
+						members := bySess[cl.Sess]
+						target := members[a.To%len(members)]
+						mu.Lock()
+						ttcp := states[target].tcp
+						mu.Unlock()
+						if target == ci || ttcp == nil {
+							break
+						}
+						ttcp.Peer().SetPaused(true)
+						for k := 0; k < a.N; k++ {
+							sendEnv("flood", sp.Clients[target].ID, "", "")
+						}
+						time.Sleep(200 * time.Millisecond)
+						verifsim.Y("c10.act", "act:flood-heal")
+						ttcp.Peer().SetPaused(false)
+						for k := 0; k < 5; k++ {
+							sendEnv("flood", sp.Clients[target].ID, "", "")
+							time.Sleep(10 * time.Millisecond)
+						}
+						res.Counters["floods"]++
 					case "sleep":
 						time.Sleep(50 * time.Millisecond)
 					case "pause", "resume":
 						// slow reader: deliveries from the server to this client are held
 						if tc, ok := conn.UnderlyingConn().(*verifsim.TCPConn); ok {
 							tc.Peer().SetPaused(a.K == "pause")
+							pausedSelf = a.K == "pause"
 						}
 					case "close":
 						st.closedStep = w.s.Steps
@@ -296,8 +342,10 @@ func (c10Harness) Run(spec any) (res verifsim.RunResult) {
 						}
 					}
 				}
-				// a stalled path always heals before the end of the run
-				if tc, ok := conn.UnderlyingConn().(*verifsim.TCPConn); ok {
+				// a path this client stalled itself always heals before the end of the run
+				// (a flooder undoes its own stall of the target)
+				if tc, ok := conn.UnderlyingConn().(*verifsim.TCPConn); ok && pausedSelf {
+					verifsim.Y("c10.act", "act:heal")
 					tc.Peer().SetPaused(false)
 				}
 			})
@@ -305,6 +353,7 @@ func (c10Harness) Run(spec any) (res verifsim.RunResult) {
 		outcome = w.run(func() bool { return int(done.Load()) == len(sp.Clients) }, 5*time.Minute)
 		// let the server finish routing everything that was sent
 		w.settle(30 * time.Second)
+		res.Counters["writes_blocked_on_full_send_buffer"] += int64(w.tnet.SendBlocks)
 	})
 	if bubblePanic != "" && !strings.Contains(bubblePanic, "deadlock: main bubble goroutine has exited") {
 		addV("panic", "bubble:"+firstLineSrv(bubblePanic), bubblePanic)
@@ -354,6 +403,9 @@ func (c10Harness) Run(spec any) (res verifsim.RunResult) {
 					continue
 				}
 				res.Counters["messages_delivered"]++
+				if m.kind == "flood" {
+					res.Counters["flood_messages_delivered"]++
+				}
 				a := sp.Clients[m.author]
 				x := sp.Clients[xi]
 				if a.Sess != x.Sess {
@@ -382,6 +434,9 @@ func (c10Harness) Run(spec any) (res verifsim.RunResult) {
 		}
 		// must-deliver
 		for _, m := range msgs {
+			if sp.Flood {
+				break // a queue that overflows loses messages: everything is 'may' in such a run
+			}
 			a := sp.Clients[m.author]
 			ast := states[m.author]
 			if ast.closedStep != 0 || !ast.connected || ast.listStep == 0 {
@@ -432,6 +487,11 @@ func (c10Harness) Run(spec any) (res verifsim.RunResult) {
 			}
 		}
 		res.Counters["messages_sent"] += int64(len(msgs))
+		for _, m := range msgs {
+			if m.kind == "flood" {
+				res.Counters["flood_messages_sent"]++
+			}
+		}
 	}
 	if s != nil {
 		res.LogHash, res.Steps, res.SimTime, res.QStates = s.LogHash, s.Steps, s.Since(), len(s.QStates)
